@@ -188,7 +188,12 @@ class TalGen:
         if 'pipes' in self.f and r < 0.25:
             self.stat('pipe')
             n = self.rng.choice([2, 2, 3, 4])
-            return ' | '.join(self.pexpr(scope, depth) for _ in range(n))
+            alts = [self.pexpr(scope, depth) for _ in range(n)]
+            if 'prefixes' in self.f and self.rng.random() < 0.35:
+                # a type prefix on a later alternative takes everything to its right
+                k = self.rng.randrange(1, n)
+                alts[k] = self.rng.choice(['not: ', 'exists: ', 'python: ', 'not:', 'string:s ']) + alts[k]
+            return ' | '.join(alts)
         if 'prefixes' in self.f and r < 0.45:
             self.stat('prefix')
             p = self.rng.choice(['python:', 'not:', 'exists:', 'string:', 'not: exists:', 'python: '] + (['structure:'] if allow_structure else []))
